@@ -12,3 +12,4 @@ CONSTANTS
  OkForms = {"canon"}
  OkPaths <- TraceOkPath
  Lower <- TraceLower
+ BadSigs = {}
